@@ -98,4 +98,32 @@ mod harness {
         let mut j = 0;
         while j < 4 { if j < n { let v = p.txs.vals[j]; assert!(v.2.contains(&PeerId(0)) == told[a[j] as usize][0] && v.2.contains(&PeerId(1)) == told[a[j] as usize][1], "SPEC relay: announced-set differs from the reference"); } j += 1; }
     }
+    /// the once-per-peer clause under RE-SUBMISSION: a transaction already announced to a peer is submitted again (send_transaction does not
+    /// de-duplicate); the next relay tick must not announce its hash to that peer a second time
+    #[kani::proof] #[kani::unwind(6)]
+    fn resubmission() {
+        let limit: usize = kani::any(); kani::assume(limit >= 1 && limit <= 3);
+        let n0: usize = kani::any(); kani::assume(n0 >= 1 && n0 <= limit);
+        let mut p = PendingTxs::new(limit);
+        let mut ids = [0u8; 3]; let mut i = 0;
+        while i < 3 {
+            if i < n0 {
+                let id: u8 = kani::any(); kani::assume(id < 4);
+                let mut j = 0; while j < 3 { if j < i { kani::assume(ids[j] != id); } j += 1; }
+                ids[i] = id;
+                let mut hs = HashSet::new();
+                if kani::any() { hs.insert(PeerId(0)); }
+                if kani::any() { hs.insert(PeerId(1)); }
+                p.txs.keys[i] = Byte32(id); p.txs.vals[i] = (packed::Transaction(id), 0, hs); p.txs.len = i + 1;
+            }
+            i += 1;
+        }
+        let k: usize = kani::any(); kani::assume(k < n0);
+        let peer: u8 = kani::any(); kani::assume(peer < 2);
+        kani::assume(p.txs.vals[k].2.contains(&PeerId(peer)));   // already announced to this peer
+        p.push(TransactionView { id: ids[k] }, kani::any());
+        let hs = p.fetch_transaction_hashes_for_broadcast(PeerId(peer));
+        let mut j = 0; while j < 4 { if j < hs.len { assert!(hs.buf[j].0 != ids[k], "SPEC relay: a pending hash is announced to the same peer a second time after the transaction was submitted again"); } j += 1; }
+        kani::cover!(n0 == 2, "two members");
+    }
 }
